@@ -1,7 +1,8 @@
 """Emitter for C11: one namespace per scenario (kind, shape, pos, cat); the macro front end
 (declare_method / define_method / register_classes), thunks and casts are the library's."""
 import sys
-sys.path.insert(0, "/verif/lib")
+import os
+sys.path.insert(0, os.path.join(os.path.dirname(os.path.dirname(os.path.abspath(__file__))), "lib"))
 import gen
 
 COMMON = r'''
